@@ -19,6 +19,7 @@ def run(ctx):
         {"scens": diamond[:: (6 if q else 1)], "policies": ("FIFO",), "bound": 1, "cap": 4000},
     ]
     plan.append({"scens": wcat.special_dep_scenarios(), "policies": ("FIFO", "LIFO", "JOBS"), "bound": 1})
+    plan.append({"scens": wcat.carry_scenarios(), "policies": ("FIFO", "JOBS"), "bound": 1})
     plan.append({"scens": wcat.wait_scenarios(), "policies": ("FIFO", "JOBS"), "bound": 1})
     # a job that joins dependencies of which some are already over; both iteration orders of the dependency sets ("+rev")
     plan.append({"scens": wcat.latejoin_scenarios(), "policies": wcat.POL_ORDER[:4] if q else wcat.POL_ORDER, "bound": 1})
